@@ -71,6 +71,15 @@ def generate(rng, tier):
             body = ["R"] + vb + ["-"] + R.gradient_regs(rng, cb, nb, bad, rng.below(2), rng.below(4), sel=sel)
             body += R.path(rng, verbs=["L"], n=2, adj=0) + ["CS", "1", "CR", "0", "0", "#ff0000ff"] + R.path(rng, verbs=["L"], n=2, adj=0)
             g["invalid-gradients"].append("REN %d %d %d %d " % tuple(rc) + " ".join(body))
+    g["second-reset"] = []
+    for _ in range(300 if tier == "quick" else 5000):
+        vb, rc = R.viewbox(rng), R.rect(rng)
+        body = ["R"] + vb + [G.rpalette(rng)] + colour_traffic(rng) + ["NS", str(rng.range(1, 63)), "CS", str(rng.range(1, 63)), "LOD", C.fh(3.0), C.fh(4.0)]
+        body += R.path(rng, verbs=["T", "S"], n=2) if rng.below(2) else []
+        body += ["R"] + R.viewbox(rng) + [G.rpalette(rng)]
+        if rng.below(2):
+            body += ["NR", "0", "1", R.mf(rng), "CR", "0", "1", "#" + G.rpremul(rng)] + R.path(rng, verbs=["t", "s", "L"], n=2)
+        g["second-reset"].append("REN %d %d %d %d " % tuple(rc) + " ".join(body))
     lods = [0.0, 1.0, 24.0, 48.0, 64.0, 600.0, float("inf"), float("-inf"), float("nan"), -1.0, 0.5, 63.999, 64.001]
     for l0 in lods:
         for l1 in lods:
